@@ -430,6 +430,16 @@ def prove(rep, extra_targets=()):
                       % (unexpected, missing), False)
         return False
     rep.cov["discharged"] = len(ths)
+    if rep.tier == "thorough":
+        # independent re-check of the compiled property files and of everything they depend on
+        mods = ["CrabV.Props." + os.path.basename(f)[:-2] for f in files]
+        rc, out = sh(["coqchk", "-o", "-silent", "-Q", ".", "CrabV"] + mods, cwd=os.path.join(VERIF, "coq"), timeout=3000)
+        summary = out[out.find("CONTEXT SUMMARY"):] if "CONTEXT SUMMARY" in out else out[-1500:]
+        rep.cov["coqchk"] = {"cmd": "coqchk -o -silent -Q . CrabV " + " ".join(mods), "rc": rc, "summary": " ".join(summary.split())[:1500]}
+        ok = rc == 0 and "Axioms: <none>" in " ".join(summary.split()) and "type-in-type: <none>" in " ".join(summary.split())
+        if not ok:
+            rep.violation("coqchk", "coqchk does not accept the compiled property files (or reports axioms):\n" + out[-2500:], False)
+            return False
     return True
 
 
